@@ -28,11 +28,15 @@ func c09multi(c *h.Ctx, idx int, r *h.Rand) {
 			ctxEnv[n] = "ctx-" + n
 		}
 	}
+	// one env_file shared by several tasks (some of which have an env section of their own as well)
+	fileEnv := map[string]string{"N1": "file-N1", "P2": "file-P2", "N3": "file-N3"}
+	h.WriteFile(real+"/shared.env", "N1=file-N1\nP2=file-P2\nN3=file-N3\n")
 	nt := r.Range(3, 6)
 	type tdesc struct {
 		name string
 		env  map[string]string
 		ctx  bool
+		ef   bool
 	}
 	var ts []tdesc
 	tasks := gen.OM{}
@@ -51,6 +55,7 @@ func c09multi(c *h.Ctx, idx int, r *h.Rand) {
 			}
 		}
 		t.ctx = len(ctxEnv) > 0 && r.Chance(40)
+		t.ef = r.Chance(45)
 		td := gen.OM{{K: "command", V: []interface{}{
 			fmt.Sprintf("sleep 0.%02d", r.Range(1, 12)),
 			fmt.Sprintf("printf 'EXE id=[%s]%s\\n'%s >> '%s'", t.name, format, argv, trace),
@@ -63,6 +68,9 @@ func c09multi(c *h.Ctx, idx int, r *h.Rand) {
 		}
 		if t.ctx {
 			td.Set("context", "cx")
+		}
+		if t.ef {
+			td.Set("env_file", "shared.env")
 		}
 		tasks.Set(t.name, td)
 		ts = append(ts, t)
@@ -146,6 +154,11 @@ func c09multi(c *h.Ctx, idx int, r *h.Rand) {
 			v := parent[n]
 			if t.ctx {
 				if x, ok := ctxEnv[n]; ok {
+					v = x
+				}
+			}
+			if t.ef {
+				if x, ok := fileEnv[n]; ok {
 					v = x
 				}
 			}
